@@ -502,15 +502,32 @@ func checkByteWidenedToRune(p *Prog, r *Result, rule string) int {
 			want := exprString(ix)
 			ok2 := blk != nil && underEdges(g, blk, func(e *FEdge) bool {
 				be, ok := ast.Unparen(e.Cond).(*ast.BinaryExpr)
-				if !ok || e.Tag != nil || exprString(be.X) != want {
+				if !ok || e.Tag != nil {
 					return false
 				}
-				v, has := info.Types[be.Y]
+				x, y, op := be.X, be.Y, be.Op
+				if exprString(y) == want {
+					x, y = y, x
+					switch op {
+					case token.LSS:
+						op = token.GTR
+					case token.GTR:
+						op = token.LSS
+					case token.LEQ:
+						op = token.GEQ
+					case token.GEQ:
+						op = token.LEQ
+					}
+				}
+				if exprString(x) != want {
+					return false
+				}
+				v, has := info.Types[y]
 				if !has || v.Value == nil {
 					return false
 				}
 				kv, _ := constant.Int64Val(constant.ToInt(v.Value))
-				return (be.Op == token.LSS && e.Pol && kv <= 128) || (be.Op == token.GEQ && !e.Pol && kv <= 128) || (be.Op == token.EQL && e.Pol && kv < 128)
+				return (op == token.LSS && e.Pol && kv <= 128) || (op == token.GEQ && !e.Pol && kv <= 128) || (op == token.EQL && e.Pol && kv < 128)
 			})
 			r.Check(ok2, rule, key, c.Pos(), "under a test that bounds that byte below utf8.RuneSelf",
 				fmt.Sprintf("%s is one byte of the pattern promoted to a rune with no test that it is ASCII: for `\\é` that is the first byte of a two-byte character — the expression matches `Ã` followed by garbage, not the pattern with its escapes removed", want))
